@@ -37,6 +37,17 @@ def gen(rng, tier):
                         cases.append(Case("cli.sign_tx %s - default %s %d %d" % (mn, hx(j), so, allow), runner="cli",
                                           tags=("kind:" + kind, "chain:" + (str(chain) if isinstance(chain, str) or chain < 100 else "2^%d%+d" % (round(__import__('math').log2(chain + 1)), chain - 2 ** round(__import__('math').log2(chain + 1)))),
                                                 "allow:%d" % allow, "sigonly:%d" % so), meta={"via": {}, "via_file": core.input_route(rng)}))
+    # chain ids written as bare JSON numbers beyond what a number can carry exactly (above 2^64, or in exponent form): the
+    # chain id that is bound is the one written, or the document is refused — never a rounded neighbour
+    import json as _json4
+    for kind in ("legacy", "eip2930", "eip1559"):
+        for tok in ("18446744073709551617", "100000000000000000000000", str(2 ** 200 + 12345), "1e23", "18446744073709551616", "9007199254740993", "1.8446744073709552e19"):
+            j, _ = txgen.rand_tx(rng, kind=kind, chain=1, spellings=["dec-str"])
+            obj = _json4.loads(j)
+            obj["chainId"] = "@@T@@"
+            txt = _json4.dumps(obj).replace('"@@T@@"', tok)
+            for so in (0, 1):
+                cases.append(Case("cli.sign_tx %s - default %s %d 0" % (mn, hx(txt), so), runner="cli", tags=("bare-number-chain", "kind:" + kind), meta={"via": {}, "via_file": False, "token": tok}))
     # the guard looks at the chain id only: recipient present / absent / null, calldata empty or not, value zero or not
     import json as _json
     for to in ("addr", "absent", "null"):
